@@ -103,6 +103,28 @@ func init() {
 		}
 		s += "def checkNativeFuncGuards : List String := " + leanStrList(guards) + "\n\n"
 
+		// initNativeFuncs statement by statement (validate everything first, assign p.nativeFuncs afterwards), and the guard in
+		// setExecuteConfig that runs it only while the table is nil
+		inf := findFunc(f, "interp", "initNativeFuncs")
+		var ist []string
+		for _, st := range inf.Body.List {
+			ist = append(ist, strings.Join(strings.Fields(c17StripComments(src(st))), " "))
+		}
+		s += "def initNativeFuncsStmts : List String := " + leanStrList(ist) + "\n"
+		sec := findFunc(parseFile("interp/interp.go"), "interp", "setExecuteConfig")
+		guard := ""
+		ast.Inspect(sec.Body, func(n ast.Node) bool {
+			if is, ok := n.(*ast.IfStmt); ok && guard == "" && strings.Contains(src(is.Cond), "nativeFuncs") {
+				guard = strings.Join(strings.Fields(c17StripComments(src(is))), " ")
+				return false
+			}
+			return true
+		})
+		if guard == "" {
+			panic("nativeFuncs guard not found in setExecuteConfig")
+		}
+		s += "def setupGuard : String := " + leanStr(guard) + "\n\n"
+
 		// resolver: the native branch of the UserCallExpr argument-count check
 		r := parseFile("internal/resolver/resolve.go")
 		var cap int64 = -1
